@@ -438,14 +438,14 @@ func (mpt *MerklePatriciaTrie) delete(key Key, prefix, path Path) (Node, Key, er
 		return nil, nil, err
 	}
 	if len(path) == 0 {
-		return mpt.deleteAtPathEnd(node)
+		return mpt.deleteAtPathEnd(node, prefix)
 	}
 	return mpt.deleteAtNode(key, node, prefix, path)
 }
 
 // deleteAtPathEnd removes the value stored exactly at the node reached once the
 // path is exhausted; a node that merely lies below that point holds no value for it.
-func (mpt *MerklePatriciaTrie) deleteAtPathEnd(node Node) (Node, Key, error) {
+func (mpt *MerklePatriciaTrie) deleteAtPathEnd(node Node, prefix Path) (Node, Key, error) {
 	switch nodeImpl := node.(type) {
 	case *LeafNode:
 		if len(nodeImpl.Path) != 0 {
@@ -455,10 +455,58 @@ func (mpt *MerklePatriciaTrie) deleteAtPathEnd(node Node) (Node, Key, error) {
 		if !nodeImpl.HasValue() {
 			return nil, nil, ErrValueNotPresent
 		}
+		if nodeImpl.GetNumChildren() == 1 {
+			// a full node with a single child and no value anymore should lift up the child
+			return mpt.liftOnlyChild(node, nodeImpl, prefix)
+		}
 	case *ExtensionNode:
 		return nil, nil, ErrValueNotPresent
 	}
 	return mpt.deleteAfterPathTraversal(node)
+}
+
+// liftOnlyChild replaces a full node that is left with a single child and no value
+// by that child, prepending the child's index to the child's path.
+func (mpt *MerklePatriciaTrie) liftOnlyChild(node Node, fn *FullNode, prefix Path) (Node, Key, error) {
+	var otherChildKey []byte
+	var oidx byte
+	for idx, pe := range PathElements {
+		child := fn.GetChild(pe)
+		if child != nil {
+			oidx = byte(idx)
+			otherChildKey = child
+			break
+		}
+	}
+	ochild, err := mpt.getNode(otherChildKey)
+	if err != nil {
+		return nil, nil, err
+	}
+	npath := []byte{fn.indexToByte(oidx)}
+	var nnode Node
+	switch onodeImpl := ochild.(type) {
+	case *FullNode:
+		nnode = NewExtensionNode(npath, otherChildKey)
+	case *LeafNode:
+		lnode := ochild.Clone().(*LeafNode)
+		lnode.SetOrigin(mpt.Version)
+		lnode.Path = concat(npath, onodeImpl.Path...)
+		lnode.Prefix = concat(prefix)
+		nnode = lnode
+		if err := mpt.deleteNode(ochild); err != nil {
+			return nil, nil, err
+		}
+	case *ExtensionNode:
+		enode := ochild.Clone().(*ExtensionNode)
+		enode.Path = concat(npath, onodeImpl.Path...)
+		nnode = enode
+		if err := mpt.deleteNode(ochild); err != nil {
+			return nil, nil, err
+		}
+	default:
+		panic(fmt.Sprintf("unknown node type: %T %v %T", ochild, ochild, mpt.db))
+	}
+	return mpt.insertNode(node, nnode)
 }
 
 func (mpt *MerklePatriciaTrie) insertAtNode(value MPTSerializable, node Node, prefix, path Path) (Node, Key, error) {
